@@ -1138,3 +1138,13 @@ func (m *Model) Retransmitted(c *RawClient, tid [12]byte) {
 		}
 	}
 }
+
+// Connect performs an RFC 6062 Connect request through the response monitor.
+func (m *Model) Connect(c *RawClient, peer *net.TCPAddr) *wire.Msg {
+	resp, _ := m.do(c, wire.MethodConnect, func(b *wire.Builder) {
+		b.AddXorAddr(wire.AttrXORPeerAddress, peer.IP, peer.Port)
+	})
+	m.Rec.Ev("req/connect")
+
+	return resp
+}
